@@ -1,6 +1,109 @@
 import CkbVerif.Driver.Util
+import CkbVerif.Model.Chain
+
+/-!
+Line-protocol driver for C01 (and, with `crash` / `restart`, C08). Protocol (harness/n01/src/c01.rs):
+
+  blk <id> <parent> <num> <epoch> <work> <nc> <ok>     declare a block (id 0 = genesis)    -> ok
+  deliver <id> <hint|->      Deliver, then Verify until the queue is empty                  -> state line
+  burst <ids>                every id delivered (serialised, no hint); final answer only    -> td=<n>
+  crash                      drop the volatile state                                        -> state line
+  restart <maxEpochLen> <order|->   crash, then re-deliver `scanList` (InitLoadUnverified)  -> state line
+  scan <maxEpochLen> <order|->      the scan list only                                      -> ids
+
+state line: cb=<id>:<new|known|err|drop>,… tip=<id> td=<n> orph=<k> stored=<ids> ext=<id>:<td>,… ver=<ids> inv=<ids>
+-/
 namespace CkbVerif.Driver.C01
-def main (_args : List String) : IO UInt32 := do
-  IO.eprintln "C01: model driver not implemented"
-  return 2
+open CkbVerif.Driver CkbVerif.Chain
+
+structure Decl where
+  id : Nat
+  parent : Nat
+  num : Nat
+  epoch : Nat
+  work : Nat
+  nc : Bool
+  ok : Bool
+
+structure St where
+  decls : List Decl := []
+  st : Option State := none
+
+def look (ds : List Decl) (b : Nat) : Option Decl := ds.find? (·.id == b)
+
+def treeOf (ds : List Decl) : Tree :=
+  { parent := fun b => match look ds b with | some d => d.parent | none => 0
+    num := fun b => match look ds b with | some d => d.num | none => 0
+    epoch := fun b => match look ds b with | some d => d.epoch | none => 0
+    work := fun b => match look ds b with | some d => d.work | none => 0
+    nc := fun b => match look ds b with | some d => d.nc | none => false
+    ok := fun b => match look ds b with | some d => d.ok | none => false }
+
+def verdictStr : Verdict → String
+  | .okNew => "new" | .okKnown => "known" | .err => "err" | .dropped => "drop"
+
+def verdictOrd : Verdict → Nat
+  | .okNew => 0 | .okKnown => 1 | .err => 2 | .dropped => 3
+
+def showList (l : List String) : String := if l.isEmpty then "-" else ",".intercalate l
+
+def stateLine (ds : List Decl) (s : State) (o : Out) : String :=
+  let ids := (ds.map (·.id)).mergeSort (fun a b => a ≤ b)
+  let cbs := o.mergeSort (fun a b => a.1 < b.1 || (a.1 == b.1 && verdictOrd a.2 ≤ verdictOrd b.2))
+  let cb := showList (cbs.map fun (i, v) => s!"{i}:{verdictStr v}")
+  let stored := showList ((ids.filter fun i => s.stored i).map toString)
+  let ext := showList (ids.filterMap fun i => (s.td i).map fun t => s!"{i}:{t}")
+  let ver := showList ((ids.filter fun i => s.ver i && (s.td i).isSome).map toString)
+  let inv := showList ((ids.filter fun i => s.invalid i).map toString)
+  s!"cb={cb} tip={s.tip} td={s.tipTd} orph={s.pool.length} stored={stored} ext={ext} ver={ver} inv={inv}"
+
+def getState (d : St) : State := match d.st with | some s => s | none => init (treeOf d.decls)
+
+def bool? (s : String) : Option Bool := if s = "1" then some true else if s = "0" then some false else none
+
+def doRestart (T : Tree) (mel : Nat) (order : List Nat) (s : State) : State × Out :=
+  let s0 := crash s
+  (scanList T mel order s0).foldl (fun (acc : State × Out) b =>
+    let r := deliverQ T [] acc.1 b
+    (r.1, acc.2 ++ r.2)) (s0, [])
+
+def step (d : St) (ts : List String) : St × String :=
+  match ts with
+  | ["blk", i, p, n, e, w, nc, ok] =>
+    match parseNat? i, parseNat? p, parseNat? n, parseNat? e, parseNat? w, bool? nc, bool? ok with
+    | some i, some p, some n, some e, some w, some nc, some ok =>
+      ({ d with decls := d.decls ++ [{ id := i, parent := p, num := n, epoch := e, work := w, nc := nc, ok := ok }] }, "ok")
+    | _, _, _, _, _, _, _ => (d, "bad-op")
+  | ["deliver", i, h] =>
+    match parseNat? i, parseNatList? h with
+    | some i, some h =>
+      let T := treeOf d.decls
+      let r := deliverQ T h (getState d) i
+      ({ d with st := some r.1 }, stateLine d.decls r.1 r.2)
+    | _, _ => (d, "bad-op")
+  | ["burst", l] =>
+    match parseNatList? l with
+    | some l =>
+      let T := treeOf d.decls
+      let s := l.foldl (fun s b => (deliverQ T [] s b).1) (getState d)
+      ({ d with st := some s }, s!"td={s.tipTd}")
+    | none => (d, "bad-op")
+  | ["crash"] =>
+    let s := crash (getState d)
+    ({ d with st := some s }, stateLine d.decls s [])
+  | ["restart", m, o] =>
+    match parseNat? m, parseNatList? o with
+    | some m, some o =>
+      let r := doRestart (treeOf d.decls) m o (getState d)
+      ({ d with st := some r.1 }, stateLine d.decls r.1 r.2)
+    | _, _ => (d, "bad-op")
+  | ["scan", m, o] =>
+    match parseNat? m, parseNatList? o with
+    | some m, some o => (d, showNatList (scanList (treeOf d.decls) m o (crash (getState d))))
+    | _, _ => (d, "bad-op")
+  | _ => (d, "bad-op")
+
+def main (_args : List String) : IO UInt32 :=
+  runLines ({} : St) step
+
 end CkbVerif.Driver.C01
